@@ -181,6 +181,18 @@ fn stub_random_state_new() -> std::hash::RandomState {
     unsafe { std::mem::transmute::<[u64; 2], std::hash::RandomState>([0x736f6d6570736575, 0x646f72616e646f6d]) }
 }
 
+/// set_in_group_id grows the table to `(pos as f64 * 1.2) as usize + 1` entries: symbolic f64 multiplication is what
+/// made this harness run > 50 min. The stub keeps the observable behaviour the codec relies on (entry `pos` set,
+/// new entries -1, old entries kept) and drops only the growth policy; O-03s checks the real function against
+/// exactly this behaviour for concrete positions.
+#[allow(dead_code)]
+fn stub_set_in_group_id(this: &mut CollectionV3, pos: usize, val: i32) {
+    if pos >= this.in_group_ids.len() {
+        this.in_group_ids.resize(pos + 1, -1);
+    }
+    this.in_group_ids[pos] = val;
+}
+
 fn any_desc(max_group: u32) -> SegmentDesc {
     let g: u32 = kani::any();
     kani::assume(g < max_group);
@@ -192,15 +204,16 @@ fn any_desc(max_group: u32) -> SegmentDesc {
 //@ kind: bounded
 //@ bound: 1 sample x 1 contig x 3 segments; group ids < 3 (keeps the predictor table small); in-group ids, lengths, orientation fully symbolic (all u32 / bool values)
 //@ tier: thorough
-//@ timeout: 3000
+//@ timeout: 1500
 //@ functions: collection::CollectionV3::serialize_contig_details collection::CollectionV3::deserialize_contig_details
-//@ stubs: std::env::var anyhow::__private::format_err std::hash::RandomState::new
+//@ stubs: std::env::var anyhow::__private::format_err std::hash::RandomState::new set_in_group_id
 //@ claim: a descriptor table written by serialize_contig_details is read back unchanged by deserialize_contig_details, for ids that repeat, go back, are 0, or jump (3 segments is the minimum that exercises prev==-1, prev set, and the zigzag branch in one group)
 #[kani::proof]
 #[kani::unwind(8)]
 #[kani::stub(std::env::var, stub_env_var_absent)]
 #[kani::stub(anyhow::__private::format_err, stub_format_err_must_not_happen)]
 #[kani::stub(std::hash::RandomState::new, stub_random_state_new)]
+#[kani::stub(CollectionV3::set_in_group_id, stub_set_in_group_id)]
 fn o03c_descriptor_table_roundtrip_bounded() {
     let seg_size: u32 = kani::any();
     let k: u32 = kani::any();
